@@ -7,7 +7,7 @@
 From Coq Require Import String.
 From Coq Require Import List Arith ZArith.
 Import ListNotations.
-From YP Require Import Base.Str Term.Term Term.Show Engine.Db Engine.DbCursor Engine.DbCursorThms Engine.DbRetractOrder Engine.DbFacts Engine.DbProg Engine.DbProgThms Engine.RunDbProg Engine.DbProgInv Engine.DbProgSim.
+From YP Require Import Base.Str Term.Term Term.Show Engine.Db Engine.DbCursor Engine.DbCursorThms Engine.DbRetractOrder Engine.DbFacts Engine.DbProg Engine.DbProgThms Engine.RunDbProg Engine.DbProgInv Engine.DbProgSim Engine.DbProgCut.
 
 (* "A goal that enumerates the dynamic facts of a predicate works on the facts as they were when the
    goal started: additions and removals made while the enumeration is suspended do not change which
@@ -99,16 +99,16 @@ Proof. eexists. eexists. split; [vm_compute; reflexivity|]. repeat split. Qed.
 (* "No modification made meanwhile is lost": the database after the run is the fold of the atomic updates
    in execution order, each of them valid in the database current at that moment (a retract answer
    deletes an Answer that is present THEN) *)
-Theorem C14_compiled_no_lost_update : forall uf prog n gs s g g' a tr,
-  ids_ok (gdb g) (gid g) -> solve uf prog n gs s g = Some (g', a, tr) ->
+Theorem C14_compiled_no_lost_update : forall uf prog n gs s g g' a tr fl,
+  ids_ok (gdb g) (gid g) -> solve uf prog n gs s g = Some (g', a, tr, fl) ->
   valid_trace (gdb g) (gid g) tr /\ (forall k, gdb g' k = apply_outs tr (gdb g) k) /\ ids_ok (gdb g') (gid g').
 Proof. exact prog_no_lost_update. Qed.
 Print Assumptions C14_compiled_no_lost_update.
 
 (* "never removing or returning a fact twice": over all retract goals of a run, however nested, and all
    retractall calls *)
-Theorem C14_compiled_retract_at_most_once : forall uf prog n gs s g g' a tr,
-  ids_ok (gdb g) (gid g) -> solve uf prog n gs s g = Some (g', a, tr) -> NoDup (removed tr).
+Theorem C14_compiled_retract_at_most_once : forall uf prog n gs s g g' a tr fl,
+  ids_ok (gdb g) (gid g) -> solve uf prog n gs s g = Some (g', a, tr, fl) -> NoDup (removed tr).
 Proof. exact prog_retract_at_most_once. Qed.
 Print Assumptions C14_compiled_retract_at_most_once.
 
@@ -130,20 +130,88 @@ Example C14_compiled_programs :
         OL [OL [OL [term_obs ss]; OL [term_obs ss]]]; onat 6].
 Proof. split; vm_compute; reflexivity. Qed.
 
+(* control constructs around the updates (round 5; DbProg: GCut / GFail / GOr / GIf, GNot, GIfThen): the search, the
+   database, the Answer identities and the allocation counter go through the branches that a cut or a commit
+   discards - what they wrote stays.
+   (1) the counter with a cut   t :- retract(c(N)), !, N1 = s(N), assertz(c(N1)).   over c(0), c(5): each call bumps
+       exactly ONE counter (the retract goal is left suspended after its first answer) and terminates;
+   (2) m :- ( p(X) -> retract(p(X)) ; assertz(p(a)) ).   toggles: three calls leave p(a);
+   (3) m :- \+ p(_), assertz(p(1)).   stores once: the second call fails;
+   (4) m :- \+ ( assertz(p(1)), !, fail ), p(X), assertz(q(X)).  m :- assertz(q(2)).   the cut under \+ is local (the second
+       clause of m still runs), and p(1), written by the goal of the \+, is there afterwards. *)
+Example C14_compiled_control_programs :
+  let p x := TFun (d "p") [x] in let c x := TFun (d "c") [x] in let q x := TFun (d "q") [x] in
+  let s x := TFun (d "s") [x] in let one := [OL []] in
+  run_prog 100 50 1000
+    [mkcl (d "init") 0 [] [GAssert false (c (TInt 0)); GAssert false (c (TInt 5))];
+     mkcl (d "t") 2 [] [GRetract (c (TVar 0)); GCut; GUnify (TVar 1) (s (TVar 0)); GAssert false (c (TVar 1))]]
+    [(d "init", [], 0); (d "t", [], 0); (d "t", [], 0)] [(d "c", 1)]
+  = OL [OL [otag "answers" [OL one]; otag "answers" [OL one]; otag "answers" [OL one]];
+        OL [OL [OL [term_obs (s (TInt 0))]; OL [term_obs (s (TInt 5))]]]; onat 4] /\
+  run_prog 100 50 1000
+    [mkcl (d "m") 1 [] [GIf [GCall (d "p") [TVar 0]] [GRetract (p (TVar 0))] [GAssert false (p (TAtom (d "a")))]]]
+    [(d "m", [], 0); (d "m", [], 0); (d "m", [], 0)] [(d "p", 1)]
+  = OL [OL [otag "answers" [OL one]; otag "answers" [OL one]; otag "answers" [OL one]];
+        OL [OL [OL [term_obs (TAtom (d "a"))]]]; onat 2] /\
+  run_prog 100 50 1000
+    [mkcl (d "m") 1 [] [GNot [GCall (d "p") [TVar 0]]; GAssert false (p (TInt 1))]]
+    [(d "m", [], 0); (d "m", [], 0)] [(d "p", 1)]
+  = OL [OL [otag "answers" [OL one]; otag "answers" [OL []]]; OL [OL [OL [term_obs (TInt 1)]]]; onat 1] /\
+  run_prog 100 50 1000
+    [mkcl (d "m") 1 [] [GNot [GAssert false (p (TInt 1)); GCut; GFail]; GCall (d "p") [TVar 0]; GAssert false (q (TVar 0))];
+     mkcl (d "m") 1 [] [GAssert false (q (TInt 2))]]
+    [(d "m", [], 0)] [(d "p", 1); (d "q", 1)]
+  = OL [OL [otag "answers" [OL [OL []; OL []]]];
+        OL [OL [OL [term_obs (TInt 1)]]; OL [OL [term_obs (TInt 1)]; OL [term_obs (TInt 2)]]]; onat 3].
+Proof. repeat split; vm_compute; reflexivity. Qed.
+
+(* The scope of a cut in the model (Engine/DbProgCut.v).  A run of DbProg.solve ends with a flag: None = exhausted, Some j =
+   frame j is being left.  For every program whose clause bodies are source bodies (src_prog: no internal markers), every
+   fuel and state: a call with nothing behind it - a query - ends with None: whatever cuts the clauses of the called
+   predicate (and of the predicates they call, to any depth) execute, nothing is propagated to the caller; and a source
+   body ends with None or with Some 0 (its own clause is cut).  So the loop  t :- retract(c(N)), !, ... assertz(c(N1)).
+   leaves its retract goal after the first answer and returns normally to whoever called t.  (General form:
+   DbProgCut.solve_may - the flag of a run is one that the goals still to run allow, calls passing on only what the
+   REST of the body says.) *)
+Theorem C14_compiled_cut_not_propagated : forall uf prog, src_prog prog -> forall n name args s g g' a tr fl,
+  solve uf prog n [GCall name args] s g = Some (g', a, tr, fl) -> fl = None.
+Proof. exact call_ends_normally. Qed.
+Print Assumptions C14_compiled_cut_not_propagated.
+
+Theorem C14_compiled_cut_ends_own_clause_only : forall uf prog, src_prog prog -> forall n gs s g g' a tr fl,
+  forallb src gs = true -> solve uf prog n gs s g = Some (g', a, tr, fl) -> fl = None \/ fl = Some 0.
+Proof. exact source_body_flag. Qed.
+Print Assumptions C14_compiled_cut_ends_own_clause_only.
+
+(* non-vacuity: the counter program is a source program, and the body  c(X), t, !  really ends with Some 0 *)
+Example C14_compiled_cut_nonvacuous :
+  let c x := TFun (d "c") [x] in
+  let prog := [mkcl (d "t") 2 [] [GRetract (c (TVar 0)); GCut; GUnify (TVar 1) (TFun (d "s") [TVar 0]); GAssert false (c (TVar 1))]] in
+  src_prog prog /\
+  exists g' a tr, solve 50 prog 100 [GAssert false (c (TInt 0)); GCall (d "c") [TVar 0]; GCall (d "t") []; GCut] [] (ginit 1 1000)
+                  = Some (g', a, tr, Some 0) /\ length a = 1.
+Proof.
+  cbv zeta. split.
+  - intros cl [<-|[]]. reflexivity.
+  - eexists. eexists. eexists. split; [vm_compute; reflexivity|reflexivity].
+Qed.
+
 (* ---- TRACE INCLUSION: every run of compiled code IS a history of the cursor machine ----
    (Engine/DbProgSim.v)  For every program whose clauses mention only their own variables (prog_ok), every body,
    bindings and global state that satisfy C13's invariant (cinv; it holds when a query starts and is preserved:
    C13_compiled_invariant), every fuel: there is a history evs of EStart / ENext / EClose / EAssert / ERetractAll events -
    a goal reached at nesting depth d is the generator d, started with the dereferenced goal, one ENext per answer
-   with the events of the rest of the body in between, a last ENext that returns StopIteration - that the cursor
+   with the events of the rest of the body in between, a last ENext that returns StopIteration, EClose d; a goal whose
+   loop is left by a cut or by the commit of an if-then-else (-> / \+) is closed while suspended: EClose d without the
+   last ENext - that the cursor
    machine (with the concrete matching function match_fact, same fuel) runs from the same database and identity
    counter (Rst) to the same database and identity counter, and whose database outputs (dbouts: the outputs without
    OStart / OEnd / OClosed) are the trace of the compiled run, event by event: equal for stored facts (OIns) and
    retractall (ORAll), and for every answer of a goal (OAns) or of a retract (ORet) the same Answer identity and the
    same answer up to an injective renaming of cells (tr_eqv; the two machines allocate the copy of the fact at
    different cells; proof: increment property and equivariance of unify, C13's invariant). *)
-Theorem C14_compiled_run_is_cursor_history : forall uf prog, prog_ok prog -> forall n gs s g g' a tr F st,
-  cinv F gs s g -> solve uf prog n gs s g = Some (g', a, tr) -> Rst g st ->
+Theorem C14_compiled_run_is_cursor_history : forall uf prog, prog_ok prog -> forall n gs s g g' a tr fl F st,
+  cinv F gs s g -> solve uf prog n gs s g = Some (g', a, tr, fl) -> Rst g st ->
   exists evs st' outs, run (match_fact uf) st evs = Some (st', outs) /\ Rst g' st' /\ tr_eqv tr (dbouts outs).
 Proof. exact prog_run_is_cursor_history. Qed.
 Print Assumptions C14_compiled_run_is_cursor_history.
@@ -151,8 +219,8 @@ Print Assumptions C14_compiled_run_is_cursor_history.
 (* C14_cursor_visits_snapshot transferred: in the history of a compiled run, from any point on (pre ++ post), every
    generator that holds its snapshot returns exactly the matching facts of that snapshot, in order, then
    StopIteration - whatever the rest of the run asserts or retracts *)
-Theorem C14_compiled_cursor_visits_snapshot : forall uf prog, prog_ok prog -> forall n gs s g g' a tr F,
-  cinv F gs s g -> solve uf prog n gs s g = Some (g', a, tr) ->
+Theorem C14_compiled_cursor_visits_snapshot : forall uf prog, prog_ok prog -> forall n gs s g g' a tr fl F,
+  cinv F gs s g -> solve uf prog n gs s g = Some (g', a, tr, fl) ->
   exists evs st' outs, run (match_fact uf) (st_of g) evs = Some (st', outs) /\ Rst g' st' /\ tr_eqv tr (dbouts outs) /\
     forall pre post st1 o1 st2 o2 c L, evs = pre ++ post ->
       run (match_fact uf) (st_of g) pre = Some (st1, o1) -> run (match_fact uf) st1 post = Some (st2, o2) ->
@@ -164,21 +232,24 @@ Print Assumptions C14_compiled_cursor_visits_snapshot.
 (* C14_no_lost_update and C14_retract_at_most_once transferred: the database after the compiled run is the fold
    of the atomic updates of its history, and the Answers removed by the run are those removed by the history,
    pairwise different *)
-Theorem C14_compiled_history_no_lost_update : forall uf prog, prog_ok prog -> forall n gs s g g' a tr F,
-  cinv F gs s g -> ids_ok (gdb g) (gid g) -> solve uf prog n gs s g = Some (g', a, tr) ->
+Theorem C14_compiled_history_no_lost_update : forall uf prog, prog_ok prog -> forall n gs s g g' a tr fl F,
+  cinv F gs s g -> ids_ok (gdb g) (gid g) -> solve uf prog n gs s g = Some (g', a, tr, fl) ->
   exists evs st' outs, run (match_fact uf) (st_of g) evs = Some (st', outs) /\ Rst g' st' /\ tr_eqv tr (dbouts outs) /\
     (forall k, gdb g' k = apply_outs outs (gdb g) k) /\ ids_ok (gdb g') (gid g') /\
     NoDup (removed outs) /\ removed tr = removed outs.
 Proof. exact prog_history_no_lost_update. Qed.
 Print Assumptions C14_compiled_history_no_lost_update.
 
-(* non-vacuity of the hypotheses: the program  t(X) :- assertz(p(1)), p(X), assertz(p(2)).  and the query t(X0) *)
+(* non-vacuity of the hypotheses: the program  t(X) :- assertz(p(1)), p(X), assertz(p(2)).  and the query t(X0);
+   and a run with a cut, an if-then-else and a negation: the body  assertz(c(0)), assertz(c(5)), t  with
+   t :- retract(c(N)), !, ( \+ c(N) -> assertz(c(s(N))) ; true ).   has one answer, 4 trace entries (2 OIns, ORet, OIns;
+   no OAns: c(0) is gone and c(5) does not match when \+ c(0) asks), ends with flag None and leaves c(5), c(s(0)) *)
 Ltac tin_small := intros w Hw; do 8 (destruct w as [|w]; [try reflexivity; simpl in Hw; discriminate|]); simpl in Hw; discriminate.
 Example C14_compiled_history_nonvacuous :
   let p x := TFun (d "p") [x] in
   let prog := [mkcl (d "t") 1 [TVar 0] [GAssert false (p (TInt 1)); GCall (d "p") [TVar 0]; GAssert false (p (TInt 2))]] in
   prog_ok prog /\ cinv (fun _ => false) [GCall (d "t") [TVar 0]] [] (ginit 1 1000) /\ Rst (ginit 1 1000) init /\
-  exists g' a tr, solve 50 prog 100 [GCall (d "t") [TVar 0]] [] (ginit 1 1000) = Some (g', a, tr) /\ length tr = 3 /\ length a = 1.
+  exists g' a tr, solve 50 prog 100 [GCall (d "t") [TVar 0]] [] (ginit 1 1000) = Some (g', a, tr, None) /\ length tr = 3 /\ length a = 1.
 Proof.
   cbv zeta. split; [|split; [|split]].
   - repeat constructor; simpl; try tin_small.
@@ -189,4 +260,23 @@ Proof.
     + repeat constructor; simpl; try tin_small.
   - split; reflexivity.
   - eexists. eexists. eexists. split; [vm_compute; reflexivity|]. split; reflexivity.
+Qed.
+
+Example C14_compiled_history_nonvacuous_cut :
+  let c x := TFun (d "c") [x] in
+  let prog := [mkcl (d "t") 1 [] [GRetract (c (TVar 0)); GCut;
+                                  GIf [GNot [GCall (d "c") [TVar 0]]] [GAssert false (c (TFun (d "s") [TVar 0]))] []]] in
+  let gs := [GAssert false (c (TInt 0)); GAssert false (c (TInt 5)); GCall (d "t") []] in
+  prog_ok prog /\ cinv (fun _ => false) gs [] (ginit 0 1000) /\
+  exists g' a tr, solve 50 prog 100 gs [] (ginit 0 1000) = Some (g', a, tr, None) /\ length tr = 4 /\ length a = 1 /\
+    map fargs (gdb g' (d "c", 1)) = [[TInt 5]; [TFun (d "s") [TInt 0]]].
+Proof.
+  cbv zeta. split; [|split].
+  - repeat constructor; simpl; try tin_small.
+  - constructor; simpl.
+    + constructor; simpl; [intros k f []|intros w Hw; discriminate].
+    + constructor.
+    + intros v t [].
+    + repeat constructor; simpl; try tin_small.
+  - eexists. eexists. eexists. split; [vm_compute; reflexivity|]. repeat split.
 Qed.
